@@ -11,6 +11,8 @@ LEVEL_TEXT = ("seeded search over schedules, fault sequences and generated workl
 GW = 'Trusts: the gw world (DESIGN §4): shipped handler chain, controller, informer, probing, transports and dispatcher run unmodified over in-bubble pipes (hooks H1, H2, H4); clients, upstreams and the object store are stubs; plain HTTP/1.1 only; between two driver steps goroutines run under a single-P Go runtime (the seed decides every stimulus, not statement interleavings); net/http select coins under connection-teardown faults are not owned by the tape (replays are retried, see DESIGN §2.7). '
 
 CHECKS = {
+ "C18": dict(design="§C18", technique="deterministic simulation with fault injection: real limiter replicas and real gateway client sets (heartbeats on the fake clock); instances die, are cut off, return or join; bounded-liveness clause for reclamation (36 s) and a safety clause for live instances evaluated at every boundary against observed heartbeat arrivals and uninterrupted leadership",
+   note="Trusts: the rl world (DESIGN §4). 'The cleanup period' is the longer of the two shipped mechanisms. Loss of records around a leader change is outside the live-instance clause as formulated (the instance must be known to the current leader)."),
  "C13": dict(design="§C13", technique="deterministic simulation with fault injection: real limiter replicas with real lease election under API cuts, crashes, restarts and partitions; RPCs sent to leaders and non-leaders; leader guard judged against each replica's own elector view at the boundaries around every call",
    note="Trusts: the rl world (DESIGN §4). No unique-leader assumption (lease semantics). The shard function's range/determinism over all inputs is only sampled: that part is a pure function."),
  "C07": dict(design="§C07", technique="deterministic simulation: real limiter replicas (lease election, informer-driven limit changes, real handler chain) driven by seeded sequences of honest instance reports; recorded quotas read back through the server's API after every answer",
